@@ -171,7 +171,7 @@ class Build:
             raise BuildError('preprocessing %s failed:\n%s' % (unit, r.stdout[-3000:]))
         return out
 
-    def lower(self, unit, extra=()):
+    def lower(self, unit, extra=(), probes=(), suffix='', append=''):
         pp = self.preprocess(unit, extra)
         rep = []
         text = open(pp).read()
@@ -184,7 +184,7 @@ class Build:
             self.lower_report[unit] = [{'function': '(tool unit: cleanup attribute left in place, ignored by CBMC)'}]
             return lp
         try:
-            out = lowermod.lower(text, rep)
+            out = lowermod.lower(text, rep, probes=probes)
         except lowermod.LowerError as e:
             raise BuildError('cleanup lowering of %s failed closed: %s' % (unit, e))
         if 'cleanup' in re.sub(r'"(?:\\.|[^"\\])*"', '', out) and re.search(r'__attribute__\s*\(\(\s*_*cleanup', out):
@@ -193,14 +193,17 @@ class Build:
             # allowed only inside macro-free typedef-less headers: none expected after lowering
             raise BuildError('cleanup attribute survived lowering in %s at offsets %s' % (unit, left[:3]))
         # file name = unit short name so that --export-file-local-symbols mangles predictably
-        lp = os.path.join(self.low, short(unit) + '.c')
+        out += append
+        d = self.low if not suffix else os.path.join(self.low, suffix)
+        os.makedirs(d, exist_ok=True)
+        lp = os.path.join(d, short(unit) + '.c')
         open(lp, 'w').write(out)
         self.lower_report[unit] = rep
         return lp
 
-    def goto_unit(self, unit, extra=()):
-        lp = self.lower(unit, extra)
-        out = os.path.join(self.gb, short(unit) + '.gb')
+    def goto_unit(self, unit, extra=(), probes=(), suffix='', append=''):
+        lp = self.lower(unit, extra, probes=probes, suffix=suffix, append=append)
+        out = os.path.join(self.gb, short(unit) + (('.' + suffix) if suffix else '') + '.gb')
         r = sh(['goto-cc', '-c', '--export-file-local-symbols', lp, '-o', out])
         if r.returncode != 0:
             raise BuildError('goto-cc %s failed:\n%s' % (unit, r.stdout[-3000:]))
@@ -212,6 +215,32 @@ class Build:
             res = list(ex.map(self.goto_unit, todo))
         self._done.update(todo)
         return res
+
+    def statics(self, unit):
+        """static-lifetime, non-const objects DEFINED in a libjwt unit, from the goto symbol table:
+        list of dicts {name, type, local_in (function or None), file_local}"""
+        r = sh(['goto-instrument', '--show-symbol-table', self.unit_gb(unit)])
+        out = []
+        cur = {}
+        for line in r.stdout.splitlines():
+            if line.startswith('Symbol......:'):
+                cur = {'name': line.split(':', 1)[1].strip()}
+            elif line.startswith('Type........:'):
+                cur['type'] = line.split(':', 1)[1].strip()
+            elif line.startswith('Flags.......:'):
+                cur['flags'] = line.split(':', 1)[1].split()
+            elif line.startswith('Location....:'):
+                loc = line.split(':', 1)[1].strip()
+                cur['loc'] = loc
+                fl = cur.get('flags', [])
+                if 'static_lifetime' in fl and 'extern' not in fl and REPO in loc and '$' not in cur['name']:
+                    ty = cur.get('type', '')
+                    if ty.startswith('const ') or ' const' in ty.split('[')[0]:
+                        continue
+                    m = re.search(r' function (\S+)', loc)
+                    out.append({'name': cur['name'], 'type': ty, 'local_in': m.group(1) if (m and '::' in cur['name']) else None,
+                                'file_local': 'file_local' in fl, 'unit': unit})
+        return out
 
     def unit_gb(self, unit):
         return os.path.join(self.gb, short(unit) + '.gb')
